@@ -109,9 +109,10 @@ MUTANTS = [
     ('C09', 'readonly-truncates-tail', FS,
      "            if not read_only:\n                logger.warning(\"%s truncated, possibly due to damaged\"",
      "            if True:\n                logger.warning(\"%s truncated, possibly due to damaged\""),
-    ('C09', 'sanity-accepts-longer-index', FS,
-     "        if self._file.tell() < pos:\n            return 0  # insane",
-     "        if False:\n            return 0  # insane"),
+    # (dropped: 'sanity-accepts-longer-index' -- skipping the size test of
+    # _check_sanity is unobservable since fix a4070b6: the read beyond the
+    # end of the file then fails inside the try block and the index is
+    # ignored all the same)
     ('C09', 'readonly-saves-index', FS,
      "        if self._is_read_only:\n            return\n\n        index_name = self.__name__ + '.index'",
      "        index_name = self.__name__ + '.index'"),
